@@ -66,7 +66,7 @@ theorem poolGet_ok (g : Cfg) (h : Nat) (s s' : St) (cls newCap rid : Nat) (c : C
     simp only [poolGet] at hg
     cases hg
     obtain ⟨h1, h2, h3, h4⟩ := alloc_ok g h s newCap [] hi
-      (fun ha => .inr ⟨cls, (hc ha).2, (hc ha).1⟩)
+      (fun ha => .inl (.inr ⟨cls, (hc ha).2, (hc ha).1⟩))
     refine ⟨h1, h2, h3, ?_, ?_, ?_⟩
     · intro r hr _; show s.regions.length ≠ r; omega
     · intro ha; exact h4.trans (hc ha).1
